@@ -410,6 +410,14 @@ func (f *Filler) Fill(v reflect.Value, depth int) {
 		for i := 0; i < n; i++ {
 			k := reflect.New(t.Key()).Elem()
 			f.Fill(k, depth+1)
+			if k.Type() == reflect.TypeOf(SK{}) || k.Type() == reflect.TypeOf(AK{}) { // distinct texts, see below
+				x := i*7919 + r.Intn(7000)
+				if k.Kind() == reflect.Struct {
+					k.Field(0).Set(reflect.ValueOf(&x))
+				} else {
+					k.Index(0).Set(reflect.ValueOf(&x))
+				}
+			}
 			if k.Kind() == reflect.Pointer && !k.IsNil() && k.Elem().Kind() == reflect.Struct && k.Elem().NumField() > 0 && k.Elem().Field(0).CanInt() {
 				// distinct pointers must not render as the same key text: the order of equal
 				// keys is unspecified on both sides
